@@ -193,10 +193,97 @@ def extract_parse(repo):
         s = mm.group(1).replace("\\\\", "\\")
         spell.setdefault(mm.group(3), s)
     t["spelling"] = spell
+    t.update(extract_storage(repo))
     # binop token maps: { TOK_X, HAWK_BINOP_Y }
     bm = re.findall(r"\{\s*TOK_(\w+)\s*,\s*HAWK_BINOP_(\w+)\s*\}", _strip_comments(parse))
     t["binopTokens"] = sorted(set(bm))
     return t
+
+
+def _norm(e):
+    return re.sub(r"\s+", "", e).replace("nde->", "").replace("block->", "")
+
+
+def extract_storage(repo):
+    """the storage layer below the operators:
+      lib/hawk.h + lib/run.c : eval_expression0's __evaluator[] against hawk_nde_type_t (node type -> evaluator)
+      lib/run.c              : do_assignment's switch (variable node type -> assigner)
+      lib/run.c              : run_block0: the two conditions and the bounds of the loop that resets a nested block's locals
+      lib/parse.c            : parse_block: what it stores in org_nlcls / outer_nlcls / nlcls"""
+    hh = _read(repo, "lib/hawk.h")
+    run = _read(repo, "lib/run.c")
+    parse = _read(repo, "lib/parse.c")
+    t = {}
+    nde = _enum(hh, "hawk_nde_type_t", "HAWK_NDE_")
+    if "GRP" not in nde:
+        raise TranslateError("hawk_nde_type_t has no HAWK_NDE_GRP (first expression node)")
+    exprs = nde[nde.index("GRP"):]
+    ev = _func_body(run, r"static\s+hawk_val_t\*\s+eval_expression0\s*\([^)]*\)\s*\{")
+    tab = _table(ev, r"static\s+eval_expr_t\s+__evaluator\s*\[\s*\]", "eval_expression0 __evaluator[]")
+    for e in tab:
+        if not re.fullmatch(r"eval_\w+", e):
+            raise TranslateError("__evaluator[]: unexpected entry %r" % e)
+    if len(tab) != len(exprs):
+        raise TranslateError("__evaluator[] has %d entries, hawk_nde_type_t has %d expression nodes from HAWK_NDE_GRP" % (len(tab), len(exprs)))
+    if not re.search(r"__evaluator\s*\[\s*nde->type\s*-\s*HAWK_NDE_GRP\s*\]\s*\(\s*rtx\s*,\s*nde\s*\)", ev):
+        raise TranslateError("eval_expression0 no longer dispatches __evaluator[nde->type - HAWK_NDE_GRP](rtx, nde)")
+    t["ndeEvaluator"] = list(zip(exprs, tab))
+
+    da = _strip_comments(_func_body(run, r"static\s+hawk_val_t\*\s+do_assignment\s*\([^)]*\)\s*\{"))
+    if not re.search(r"switch\s*\(\s*var->type\s*\)", da):
+        raise TranslateError("do_assignment no longer switches on var->type")
+    pend, out = [], []
+    for m in re.finditer(r"case\s+HAWK_NDE_(\w+)\s*:|ret\s*=\s*(do_assignment_\w+)\s*\(|default\s*:", da):
+        if m.group(1):
+            pend.append(m.group(1))
+        elif m.group(2):
+            if not pend:
+                raise TranslateError("do_assignment: call of %s outside a case" % m.group(2))
+            out += [(l, m.group(2)) for l in pend]
+            pend = []
+        else:
+            if pend:
+                raise TranslateError("do_assignment: cases %s fall into default" % pend)
+    if pend or not out:
+        raise TranslateError("do_assignment: cannot read the switch (pending %s)" % pend)
+    t["assignDispatch"] = out
+
+    rb = re.sub(r"\s+", " ", _strip_comments(_func_body(run, r"static\s+HAWK_INLINE\s+int\s+run_block0\s*\([^)]*\)\s*\{")))
+    conds = re.findall(r"(?:else )?if \((nde->nlcls [^()]*)\) \{", rb)
+    if len(conds) < 3:
+        raise TranslateError("run_block0: expected the conditions on nde->nlcls (push, reset, pop), found %s" % conds)
+    m = re.search(r"for \( ?(\w+) = ([^;]+); ?\1 < ([^;]+); ?\1\+\+ ?\) \{ hawk_rtx_refdownval ?\( ?rtx, HAWK_RTX_STACK_LCL ?\( ?rtx, ?\1 ?\) ?\); "
+                  r"HAWK_RTX_STACK_LCL ?\( ?rtx, ?\1 ?\) = hawk_val_nil; \}", rb)
+    if not m:
+        raise TranslateError("run_block0: the loop that sets the locals of a nested block to nil was not found")
+    lo, hi = m.group(2).strip(), m.group(3).strip()
+    if re.fullmatch(r"\w+", hi):
+        mm = re.findall(r"\b%s = ([^;]+);" % hi, rb[:m.start()])
+        if len(mm) != 1:
+            raise TranslateError("run_block0: cannot resolve the loop bound %s" % hi)
+        hi = mm[0]
+    t["blockConds"] = [_norm(c) for c in conds[:2]]
+    t["blockResetLo"] = _norm(lo)
+    t["blockResetHi"] = _norm(hi).split("+")
+
+    pb = _func_body(parse, r"static\s+hawk_nde_t\*\s+parse_block\s*\([^)]*\)\s*\{")
+    pb = re.sub(r"#if 1(.*?)#else.*?#endif", r"\1", pb, flags=re.S)
+    if "#if" in pb and re.search(r"#if[^\n]*\n[^#]*block->\w*nlcls", pb):
+        raise TranslateError("parse_block: the block counters are set under an unknown preprocessor condition")
+    pbn = re.sub(r"\s+", " ", _strip_comments(pb))
+    fields = re.findall(r"block->(\w*nlcls) = ([^;]+);", pbn)
+    if not fields:
+        raise TranslateError("parse_block no longer sets block->org_nlcls / outer_nlcls / nlcls")
+    t["parseBlockFields"] = [(f, _norm(v)) for f, v in fields]
+    mo = re.findall(r"\bnlcls_outer = ([^;]+);", pbn)
+    if len(mo) != 1:
+        raise TranslateError("parse_block: nlcls_outer is assigned %d times" % len(mo))
+    t["parseBlockOuter"] = _norm(mo[0])
+    return t
+
+
+def _lpair(xs):
+    return "[" + ", ".join('("%s", "%s")' % p for p in xs) + "]"
 
 
 def _lstr(xs):
@@ -235,6 +322,18 @@ def render(t):
     o.append("def incpst : List (String × Int × Int) := [" + ", ".join('("%s", %d, %d)' % x for x in t["incpst"]) + "]")
     o.append("/-- parse_unary: token -> HAWK_UNROP_ -/")
     o.append("def unaryTokens : List (String × String) := [" + ", ".join('("%s", "%s")' % p for p in t["unaryTokens"]) + "]")
+    o.append("/-- eval_expression0: (node type from HAWK_NDE_GRP on, __evaluator[type - HAWK_NDE_GRP]) -/")
+    o.append("def ndeEvaluator : List (String × String) := " + _lpair(t["ndeEvaluator"]))
+    o.append("/-- do_assignment: switch (var->type): (node type, assigner) -/")
+    o.append("def assignDispatch : List (String × String) := " + _lpair(t["assignDispatch"]))
+    o.append("/-- run_block0: the condition for pushing a fresh frame, the condition for resetting a nested block's locals -/")
+    o.append("def blockConds : List String := " + _lstr(t["blockConds"]))
+    o.append("/-- run_block0: `for (tmp = LO; tmp < HI; tmp++) LCL(tmp) = nil` - LO, and the summands of HI -/")
+    o.append("def blockResetLo : String := \"%s\"" % t["blockResetLo"])
+    o.append("def blockResetHi : List String := " + _lstr(t["blockResetHi"]))
+    o.append("/-- parse_block: what the parser stores in the block node, and what nlcls_outer is -/")
+    o.append("def parseBlockFields : List (String × String) := " + _lpair(t["parseBlockFields"]))
+    o.append("def parseBlockOuter : String := \"%s\"" % t["parseBlockOuter"])
     o.append("")
     o.append("end Hawk.Gen.OpTables")
     return "\n".join(o) + "\n"
@@ -260,5 +359,6 @@ if __name__ == "__main__":
     verif = os.path.dirname(os.path.dirname(os.path.abspath(__file__)))
     t, ch = main(repo, verif)
     print("OpTables.lean %s" % ("rewritten" if ch else "unchanged"))
-    for k in ("binopEnum", "evalBinaryTable", "assopEnum", "evalAssignTable", "incpre", "incpst", "assignRhsFirst"):
+    for k in ("binopEnum", "evalBinaryTable", "assopEnum", "evalAssignTable", "incpre", "incpst", "assignRhsFirst",
+              "ndeEvaluator", "assignDispatch", "blockConds", "blockResetLo", "blockResetHi", "parseBlockFields", "parseBlockOuter"):
         print(k, t[k])
